@@ -293,7 +293,7 @@ def gen_config(rng, malformed=False):
     return {
         'channels': list(ch), 'markers': list(mk),
         'amps': [rng.choice([0.5, 1.0, 2.0, 0.75, 1.3]) for _ in range(2)],
-        'offs': [rng.choice([0.0, 0.0, 0.0625, -0.125, 0.03]) for _ in range(2)],
+        'offs': [rng.choice([0.0, 0.0, 0.0625, -0.125, 0.03, -0.03, 0.125]) for _ in range(2)],
         'trafos': tr,
         'limits': list(rng.choice(LIMITS)),
         'mode': rng.choice(['auto'] * 8 + ['advanced', 'single']),
@@ -793,8 +793,18 @@ class Batch:
                 raise core.MachineryError('judge request rejected: %r' % (verdict,))
             if verdict[0] == 'violates':
                 clause = verdict[1]
+                detail = ' '.join(map(str, verdict[1:]))
+                if clause in ('channel-a', 'channel-b') and len(verdict) >= 6:
+                    if int(verdict[4]) > int(verdict[5]):
+                        detail = ('%s sample %s: the source voltage lies outside [offset - amplitude, offset + amplitude] '
+                                  '(amplitudes %s, offsets %s), the program had to be rejected; the device plays code %s'
+                                  % (clause, verdict[2], cfg['amps'], cfg['offs'], verdict[3]))
+                    else:
+                        detail = ('%s sample %s: device plays code %s, the quantised source is %s'
+                                  % (clause, verdict[2], verdict[3],
+                                     verdict[4] if verdict[4] == verdict[5] else verdict[4] + ' or ' + verdict[5]))
                 ctx.violation('TaborProgram output violates the property: %s (mode %s, limits %s, channels %s, '
-                              'markers %s)' % (' '.join(map(str, verdict[1:])), impl['mode'], cfg['limits'],
+                              'markers %s)' % (detail, impl['mode'], cfg['limits'],
                                                cfg['channels'], cfg['markers']),
                               dict(replay, judge=verdict, tables={'seqtabs': impl['seqtabs'], 'adv': impl['adv']}))
                 ctx.count(label + ':violation:' + clause)
@@ -829,6 +839,16 @@ class Batch:
         ctx.count(label + ':outcome:' + got)
         ctx.count(label + ':mode:' + (impl['mode'] if status == 'ok' else cfg['mode']))
         ctx.case(e['mline'], nontrivial=nontrivial or got != 'ok')
+        if got == 'error:value_error' and expect == 'ok':
+            # every transformed voltage lies inside [offset - amplitude, offset + amplitude] (checked exactly in
+            # Lean, not even within 2^-40 of the ends): the device can play this program, rejecting it with a
+            # voltage-range error is wrong
+            ctx.violation('TaborProgram rejects a playable program with "Voltage out of range": all transformed '
+                          'voltages lie inside [offset - amplitude, offset + amplitude] (amplitudes %s, offsets %s, '
+                          'transformations %s, channels %s)' % (cfg['amps'], cfg['offs'], cfg['trafos'], cfg['channels']),
+                          dict(replay))
+            ctx.count(label + ':violation:in-range-rejected')
+            return
         # ---- correspondence
         if got != expect:
             ctx.drift('TaborProgram outcome vs QP.C16 model (initProgram/chooseMode/setupAdvanced/parse)',
@@ -1001,6 +1021,29 @@ def fraction_cases():
                            'cfg': dict(cfg)}
 
 
+def range_cases():
+    """voltages at and next to both ends of the output range, offsets of both signs: everything inside
+    [offset - amplitude, offset + amplitude] has to be compiled (and played with the right codes), anything
+    outside has to be rejected"""
+    base = {'channels': ['A', 'B'], 'markers': ['M', 'N'], 'trafos': ['id', 'id'], 'limits': [1, 16384], 'mode': 'auto'}
+    factors = [-1.0, -0.9999, -0.75, 0.75, 0.9999, 1.0, -1.0001, 1.0001, -1.25, 1.25]
+    for amp in (0.5, 1.0):
+        for off in (-0.25, -0.0625, 0.0, 0.0625, 0.25):
+            for trafo in ('id', 'neg'):
+                sign = -1.0 if trafo == 'neg' else 1.0
+                for i, k in enumerate(factors):
+                    kb = factors[(i + 3) % 6]                      # channel B: always a playable value
+                    va, vb = sign * (off + amp * k), off + amp * kb
+                    pool = [{'n': 192, 'ch': {'A': ['const', va], 'B': ['const', vb], 'M': ['const', 1.0], 'N': ['const', 0.0]}},
+                            {'n': 192, 'ch': {'A': ['const', sign * off], 'B': ['const', off + amp * factors[i % 6]],
+                                              'M': ['const', 0.0], 'N': ['const', 1.0]}}]
+                    for chans in (['A', 'B'], ['B', 'A']):
+                        tr = [trafo, 'id'] if chans == ['A', 'B'] else ['id', trafo]
+                        yield {'rate': [1, 1], 'pool': pool, 'pt': None, 'family': 'range',
+                               'tree': ['l', 1, False, [['w', 2, 0, False], ['w', 1, 1, False]]],
+                               'cfg': dict(base, channels=chans, trafos=tr, amps=[amp, amp], offs=[off, off])}
+
+
 def ids_cases():
     """integer channel / marker identifiers (0 included) on every output"""
     cfg = {'channels': ['A', 'B'], 'markers': ['M', 'N'], 'amps': [0.5, 0.5], 'offs': [0.0, 0.0],
@@ -1076,6 +1119,7 @@ def run(ctx: core.Ctx):
     run_cases(ctx, 'volscope', list(volscope_cases()), 400)
     run_cases(ctx, 'twins', list(twin_cases()), 400)
     run_cases(ctx, 'ids', list(ids_cases()), 400)
+    run_cases(ctx, 'range', list(range_cases()), 400)
     run_cases(ctx, 'fraction', list(fraction_cases()), 400)
     # ---- random structured cases
     for family, nq, nt in (('tree', 300, 20000), ('pt', 80, 5000), ('volatile', 60, 4000), ('malformed', 60, 3000),
@@ -1211,7 +1255,7 @@ def _check_codes(ctx, n):
     lines, impl, metas = [], [], []
     for _ in range(n):
         amp = rng.choice([0.5, 1.0, 2.0, 0.75, 1.3, 0.1, 3.7])
-        off = rng.choice([0.0, 0.0625, -0.125, 0.03, 1.0])
+        off = rng.choice([0.0, 0.0625, -0.125, 0.03, 1.0, -1.0, -0.03, 0.25, -0.25, 2.5, -2.5])
         step = 2 * amp / 16383
         vs = []
         for _ in range(24):
@@ -1225,8 +1269,13 @@ def _check_codes(ctx, n):
                 vs.append(rng.choice([off - amp, off + amp, off]))
             else:
                 vs.append(off + rng.uniform(-amp, amp))
-        if rng.random() < 0.1:
-            vs[rng.randrange(len(vs))] = off + amp * rng.choice([1.0000001, -1.0000001, 1.5, -2.0])
+        r = rng.random()
+        if r < 0.12:
+            vs[rng.randrange(len(vs))] = off + amp * rng.choice([1.0000001, -1.0000001, 1.5, -2.0, -1.01, 1.01, -1.2, 1.2])
+        elif r < 0.3:
+            # only voltages close to (and at) both ends of the range, all of them playable
+            vs = [off + amp * rng.choice([-1.0, -0.9999, -0.99, 0.99, 0.9999, 1.0]) * rng.choice([1.0, 1.0, 0.5])
+                  for _ in range(24)]
         arr = np.array(vs, dtype=float)
         try:
             got = ['ok', [int(c) for c in voltage_to_uint16(arr, amp, off, 14)]]
@@ -1234,7 +1283,8 @@ def _check_codes(ctx, n):
             got = ['error', 'value_error']
         lines.append(ser(['c16', 'code14', F(amp), F(off), dyadic(arr)]))
         impl.append(got)
-    for line, got, ans in zip(lines, impl, core.Lean.run(lines)):
+        metas.append((amp, off, [float(v) for v in arr]))
+    for line, got, ans, meta in zip(lines, impl, core.Lean.run(lines), metas):
         ctx.case(line[:200], nontrivial=True)
         ctx.count('codes:' + got[0])
         if got[0] == 'error' or ans[0] == 'error':
@@ -1242,8 +1292,21 @@ def _check_codes(ctx, n):
                 if ans[0] == 'error' and ans[2] == 'true':
                     # every sample is within 2^-40 (relative) of the range end: the float range check may round
                     ctx.count('codes:range-end-rounding')
+                elif ans[0] == 'error':
+                    ctx.violation('voltage_to_uint16 accepts a voltage outside [offset - amplitude, offset + amplitude] '
+                                  '(amplitude %r, offset %r, voltages %r ... %r): it has to raise, the codes it returns '
+                                  '(%s ...) are not the codes of these voltages'
+                                  % (meta[0], meta[1], min(meta[2]), max(meta[2]), got[1][:4]),
+                                  {'kind': 'code14', 'line': line, 'impl': str(got)[:300], 'spec': str(ans)[:100],
+                                   'amp': meta[0], 'off': meta[1], 'voltages': meta[2]})
+                    ctx.count('codes:violation:out-of-range-accepted')
                 else:
-                    ctx.drift('voltage_to_uint16 range check vs QP.C16.code14', line[:400], str(got), str(ans))
+                    ctx.violation('voltage_to_uint16 raises "Voltage out of range" although every voltage lies inside '
+                                  '[offset - amplitude, offset + amplitude] = [%r, %r] (voltages %r ... %r)'
+                                  % (meta[1] - meta[0], meta[1] + meta[0], min(meta[2]), max(meta[2])),
+                                  {'kind': 'code14', 'line': line, 'impl': str(got), 'spec': str(ans)[:300],
+                                   'amp': meta[0], 'off': meta[1], 'voltages': meta[2]})
+                    ctx.count('codes:violation:in-range-rejected')
             continue
         want = [int(c) for c in ans[1]]
         near = [f == 'true' for f in ans[2]]
